@@ -43,7 +43,8 @@ def gen_chromosome(r, cname, base, span, n_genes, n_tes, groups, maxw, feats):
         else:
             s = r.randint(lo, hi - 1)
         ln = r.choice([1, 2, 10, 100, 500, 1500, r.randint(1, 3000)])
-        e = min(hi, s + ln - 1)
+        s = max(1, min(s, hi))
+        e = max(s, min(hi, s + ln - 1))
         genes.append({"name": "%s_g%d" % (cname, gi), "chrom": cname, "start": s, "stop": e,
                       "strand": r.choice(["+", "-", "+", "-", "."])})
     if n_genes >= 2 and r.random() < 0.3:          # overlapping genes
@@ -119,6 +120,12 @@ def gen_groups(r):
     for o in orders:
         for sf in r.sample(SUPER_POOL[o], r.randint(1, min(3, len(SUPER_POOL[o])))):
             groups.append((o, sf))
+    if r.random() < 0.35 and len(orders) >= 2:
+        # a name used on both axes with different members: superfamily named like order a, carried by order b
+        a, b = r.sample(orders, 2)
+        groups.append((b, a))
+        if r.random() < 0.5:
+            groups.append((a, a))
     return groups
 
 
